@@ -50,8 +50,51 @@ static bool lost_wakeup(std::string& why) {
     }
     return false;
 }
+// ---- pop of a ticket whose page allocation failed (lane.pop.invalid_page) -------------------------------------------------------------------------
+// An allocator that throws on the n-th page allocation.  push(ticket with slot 0 of a new page) -> bad_alloc, the lane is invalidated (head_page / next = (padded_page*)1).
+// The later try_pop that claims THAT ticket runs micro_queue::pop, which dereferences head_page == (padded_page*)1.  The scenario runs in a forked child so that the
+// replay survives the crash.  A correct pop reports the ticket as an invalid entry: try_pop skips it, every item pushed on the other lanes comes out, nothing crashes.
+#include <sys/wait.h>
+#include <unistd.h>
+#include <new>
+static int g_fail_at = -1, g_allocs = 0;
+template <class T> struct FailingAlloc {
+    using value_type = T;
+    FailingAlloc() = default; template <class U> FailingAlloc(const FailingAlloc<U>&) {}
+    T* allocate(std::size_t n) { if (g_allocs++ == g_fail_at) throw std::bad_alloc(); return static_cast<T*>(::operator new(n * sizeof(T))); }
+    void deallocate(T* p, std::size_t) { ::operator delete(p); }
+    template <class U> bool operator==(const FailingAlloc<U>&) const { return true; }
+    template <class U> bool operator!=(const FailingAlloc<U>&) const { return false; }
+};
+// child exit code: 0 = every successfully pushed value came out exactly once in order and the queue ended empty; 3 = wrong values; killed by a signal = crash
+template <class Q> static int failed_alloc_child(int fail_at, int npush) {
+    Q q; g_allocs = 0; g_fail_at = fail_at; std::vector<int> pushed;
+    for (int i = 0; i < npush; ++i) { try { q.push(i); pushed.push_back(i); } catch (std::bad_alloc&) {} }
+    g_fail_at = -1;
+    std::vector<int> got; int v;
+    for (int i = 0; i < npush + 4; ++i) if (q.try_pop(v)) got.push_back(v);
+    return got == pushed ? 0 : 3;
+}
+template <class Q> static bool pop_after_failed_alloc(std::string& why, const char* name) {
+    struct { int fail_at, npush; const char* what; } sc[] = { {0, 3, "the first page allocation of the queue throws (push(0)), push(1), push(2) succeed on other lanes"},
+                                                               {1, 12, "the second page allocation throws (push(1)), 10 further pushes succeed or throw bad_last_alloc"} };
+    for (auto& s : sc) {
+        pid_t pid = fork();
+        if (pid == 0) { std::fclose(stdout); _exit(failed_alloc_child<Q>(s.fail_at, s.npush)); }
+        int st = 0; waitpid(pid, &st, 0);
+        if (WIFSIGNALED(st)) why += std::string(why.empty() ? "" : " || ") + name + ": " + s.what + "; the try_pop that claims the failed push's ticket dies with signal " + std::to_string(WTERMSIG(st)) + " (micro_queue::pop dereferences head_page == (padded_page*)1)";
+        else if (WIFEXITED(st) && WEXITSTATUS(st) != 0) why += std::string(why.empty() ? "" : " || ") + name + ": " + s.what + "; the values popped afterwards are not the successfully pushed ones in order (exit " + std::to_string(WEXITSTATUS(st)) + ")";
+    }
+    return !why.empty();
+}
 int main(int argc, char** argv) {
     std::string job = argc > 1 ? argv[1] : "", why;
+    if (job.rfind("lane.pop.invalid_page", 0) == 0) {
+        if (pop_after_failed_alloc<tbb::concurrent_queue<int, FailingAlloc<int>>>(why, "concurrent_queue<int, FailingAlloc>") || pop_after_failed_alloc<tbb::concurrent_bounded_queue<int, FailingAlloc<int>>>(why, "concurrent_bounded_queue<int, FailingAlloc>"))
+            std::printf("REPRODUCED class=pop-after-failed-page-allocation %s\n", why.c_str());
+        else std::printf("NOT-REPRODUCED\n");
+        return 0;
+    }
     if (job.rfind("wake", 0) == 0 && lost_wakeup(why)) { std::printf("REPRODUCED class=bounded-queue-lost-wakeup %s\n", why.c_str()); return 0; }
     if (negative_size_try_push(why)) { std::printf("REPRODUCED class=bounded-queue-false-full %s\n", why.c_str()); return 0; }
     if (fifo_stress<tbb::concurrent_queue<int>>(why, "concurrent_queue<int>") || fifo_stress<tbb::concurrent_bounded_queue<int>>(why, "concurrent_bounded_queue<int>")) { std::printf("REPRODUCED class=queue-fifo %s\n", why.c_str()); return 0; }
